@@ -281,7 +281,9 @@ def build_case(chk, rng, it):
     N = rng.randint(1, 7)
     nz = rng.randint(1, 3)
     qdeg = rng.choice([2 * d, 2 * d + 1, 2 * d + 2, max(1, d), 3, 1])
-    manufactured = rng.random() < 0.35 and d >= 2 and it % 8 != 5
+    manufactured = rng.random() < 0.35 and d >= 2 and it % 8 != 5 and it % 9 != 4
+    if it % 9 == 4:
+        N = rng.randint(5, 7)
     if manufactured:
         qdeg = rng.choice([2 * d, 2 * d + 1, 2 * d + 3])
     coefs = rand_coefs(rng, manufactured)
@@ -307,7 +309,16 @@ def build_case(chk, rng, it):
         # 'the first k modes': a list of numbers 0..k-1 with k beyond N/2 - the entries above N/2 (and, for even N, +N/2 itself: the
         # Nyquist mode is stored as -N/2) are no mode numbers of the table and name no mode
         style = 'first_k'
-    if style == 'first_k':
+    if it % 9 == 4 and not manufactured and not big_n and N >= 5:
+        # one mode m != 0 with Neumann conditions at both ends: ill-posed exactly when the reaction term of THAT mode, C - m^2 D,
+        # vanishes (C = m^2 D != 0: to be refused), well-posed when C = 0 and D != 0 (to be accepted and solved) - finding F33
+        m_ = [1, 2, -1, -2][it // 9 % 4]
+        ill = it // 9 % 2 == 0
+        coefs['ddThetaFactor'] = (('inv2', -1.0), lam('inv2', -1.0))
+        coefs['rFactor'] = (('inv2', -float(m_ * m_)), lam('inv2', -float(m_ * m_))) if ill else (('const', 0.0), lam('const', 0.0))
+        style = 'one_pure_neumann_mode'
+        lneu, uneu = [m_], [m_]
+    elif style == 'first_k':
         kk = rng.randint(N // 2 + 1, N)
         lneu, uneu = (list(range(kk)), []) if it % 2 else ([], list(range(kk)))
     elif style == 'none':
@@ -383,7 +394,12 @@ def run_solver(cs, S, rho_global, rho_func=None, want_attrs=True, float_lists=Fa
         sl = (slice(L.starts[0], L.ends[0]), slice(L.starts[1], L.ends[1]))
         rho._f[:] = rho_global[sl]
         phi._f[:] = 1e300
-        if rho_func is not None:
+        if rho_func is not None and getattr(rho_func, 'direct', False):
+            # the caller's function is handed over as it is (it may return its own argument, or an array it keeps): twice
+            ps.solveEquationForFunction(phi, rho_func)
+            phi._f[:] = 1e300
+            ps.solveEquationForFunction(phi, rho_func)
+        elif rho_func is not None:
             # a right-hand side whose values change between two calls while the callable stays the same object (a source with a
             # time-dependent amplitude): the second call must solve for the values of the second call
             class Source:
@@ -542,7 +558,11 @@ def one_case(chk, drv, it, stats):
     # ---------- expected refusal (oracle, independent): pure Neumann requested and C == 0 at all Gauss points
     _, _, _, ev = gauss_setup(rs.breaks, cs['qdeg'])
     cnull = all(float(fns[2](float(x))) == 0 for x in ev.ravel())
-    expect_refusal = bool(lset & uset) and cnull
+    # a number b in both Neumann lists is refused when the reaction term of that mode, C - b^2 D, vanishes at every quadrature point
+    # (finding F33: the code used to look at C alone); same floating-point expression as the code: rFactor(r) - b*b*ddThetaFactor(r)
+    nulls = sorted(b for b in (lset & uset)
+                   if all(float(fns[2](float(x))) - b * b * float(fns[3](float(x))) == 0 for x in ev.ravel()))
+    expect_refusal = bool(nulls)
 
     # ---------- right-hand side
     oa = oracle_assembly([float(k) for k in frac_knots(rs)], d, np.asarray(rs.breaks, float), cs['qdeg'], fns)
@@ -588,7 +608,24 @@ def one_case(chk, drv, it, stats):
     desc = case_desc(cs)
 
     knots_before = [(b, np.array(b.knots, copy=True)) for b in S['bsplines'] if b is not None]
-    res = run_solver(cs, S, rho_g, rho_func)
+    rho_impl = rho_func
+    if rho_func is not None and not cs['manufactured'] and it % 4 in (1, 3):
+        # what the solver is given: a function that returns ITS ARGUMENT (the identity source rho(r) = r) or an array it keeps and returns
+        # again for the same points (memoised values) - the solver may read what it gets, not write into it
+        if it % 4 == 1:
+            rho_func = lambda r: r                                   # noqa: E731   (oracles: the same function, on their own arrays)
+            rho_impl = lambda r: r                                   # noqa: E731
+        else:
+            memo_ = {}
+            pure_ = rho_func
+
+            def rho_impl(r):
+                k_ = np.asarray(r).tobytes()
+                if k_ not in memo_:
+                    memo_[k_] = np.asarray(pure_(np.asarray(r)))
+                return memo_[k_]
+        rho_impl.direct = True
+    res = run_solver(cs, S, rho_g, rho_impl)
     if any(not np.array_equal(k0, np.asarray(b.knots)) for b, k0 in knots_before):
         chk.fail('C14:spline-space-modified', 'building / using the solver changed the knots of the spline space it was given', desc)
         return
@@ -598,7 +635,7 @@ def one_case(chk, drv, it, stats):
     outs = res.values()
     refused = 'refused' in outs[0]
     # ---------- model (decision part first)
-    sl = drv.call({'op': 'slices', 'nb': nr, 'N': N, 'lneu': cs['lneu'], 'uneu': cs['uneu'], 'cnull': cnull})
+    sl = drv.call({'op': 'slices', 'nb': nr, 'N': N, 'lneu': cs['lneu'], 'uneu': cs['uneu'], 'nulls': nulls})
     if 'error' in sl:
         raise RuntimeError(sl['error'])
     if refused != expect_refusal:
